@@ -140,6 +140,7 @@ type VC struct {
 	heldOnEntry map[string]bool
 	lockChecksOff bool
 	nquant int
+	discWrites map[string][]string // during loop discovery: storage -> index terms written
 	lockedSt *State // state right after the latest lock acquisition (for locked(...))
 	lineTags []int
 	globalFact bool
@@ -649,6 +650,9 @@ func (vc *VC) isFresh(ref string) string {
 // frameCheck emits the obligation that a write to heap[idx] is allowed by the
 // modifies clause of the function under verification.
 func (vc *VC) frameCheck(heap, idx string, pos token.Pos) {
+	if vc.discovery > 0 && vc.discWrites != nil {
+		vc.discWrites[heap] = append(vc.discWrites[heap], idx)
+	}
 	if !vc.checkFrame || vc.modAll || vc.discovery > 0 {
 		return
 	}
